@@ -216,16 +216,8 @@ def rule_validate(ctx, ts):
 
     # assign_array
     am = ts.macro(t, "assign_array")
-    cmps = {}
-    for node, stack in j2front.walk(am):
-        if isinstance(node, N.Assign) and isinstance(node.target, N.Name) and node.target.name == "cmp":
-            f = tuple(e for e, pol in j2front.facts(stack) if pol)
-            cmps[f[-1] if f else "?"] = xs(node.node)
-    fx = [v for k, v in cmps.items() if "is FixedLengthArrayType" in k]
-    vr = [v for k, v in cmps.items() if "is VariableLengthArrayType" in k]
-    ok = fx == ["'=='"] and vr == ["'<='"] and len(cmps) == 2
-    ctx.ob(R, t.rel, "assign_array: == for fixed-length, <= for variable-length arrays", ok, f"{cmps}", am.lineno)
-    paths = j2text.render_paths(N, am.body, subst=lambda e: "<=" if xs(e) == "cmp" else None)
+    paths = j2text.render_paths(N, am.body)
+    n_fixed = n_var = 0
     for p in paths:
         tree = _parse(p, "assign_array")
         fid = p.name_of(FID)
@@ -236,16 +228,44 @@ def rule_validate(ctx, ts):
         if not asg or cap is None or src is None:
             ctx.ob(R, t.rel, f"{label}: assigns the backing field", False, "macro path without assignment / capacity", am.lineno)
             continue
+        # which kind of array is this path for?  (the comparison operator follows from it: == fixed, <= variable)
+        fixed = any("FixedLengthArrayType" in c and pol for c, pol in p.conds)
+        variable = any(("VariableLengthArrayType" in c and pol) or ("FixedLengthArrayType" in c and not pol) for c, pol in p.conds)
+        if fixed == variable:
+            ctx.ob(R, t.rel, f"{label}: the path is for a fixed-length or for a variable-length array", False,
+                   f"cannot tell from {list(p.conds)}: the length comparison operator is not tied to the array kind", am.lineno)
+            continue
+        n_fixed += fixed
+        n_var += variable
+        op = "==" if fixed else "<="
         for st, g in asg:
             terms = pyfront.guard_terms(g)
             pos = [e.replace(" ", "") for e, pol in terms if pol]
-            fixed = any("FixedLengthArrayType" in c and pol for c, pol in p.conds)
-            op = "==" if fixed else "<="     # the path renderer expands the `cmp` variable to the literal its branch set
             okc = any((f"len({src}){op}{cap}" in e or f"{src}.size{op}{cap}" in e) for e in pos)
-            ctx.ob(R, t.rel, f"{label}: `{ast.unparse(st)[:46]}` is control-dependent on a length check against t.capacity", okc,
+            ctx.ob(R, t.rel, f"{label} ({'fixed' if fixed else 'variable'}): `{ast.unparse(st)[:46]}` is control-dependent on a length check `{op} capacity`", okc,
                    "" if okc else f"stored under {terms}: an array longer than the capacity (or of the wrong fixed length) is accepted", am.lineno)
+            # zero-copy view of a buffer: len() counts the elements that are stored only for bytes / bytearray (one byte per item);
+            # a memoryview or array.array has len() in items of its own format, and frombuffer reinterprets their bytes
+            if "frombuffer(" in ast.unparse(st.value):
+                tys = set()
+                for e, pol in terms:
+                    if pol:
+                        for c in ast.walk(ast.parse(e, mode="eval")):
+                            if isinstance(c, ast.Call) and isinstance(c.func, ast.Name) and c.func.id == "isinstance" and len(c.args) == 2 and ast.unparse(c.args[0]) == src:
+                                tys |= {ast.unparse(x) for x in (c.args[1].elts if isinstance(c.args[1], ast.Tuple) else [c.args[1]])}
+                okb = bool(tys) and tys <= {"bytes", "bytearray"}
+                ctx.ob(R, t.rel, f"{label}: the buffer fast path admits only bytes / bytearray, whose len() is the number of stored elements", okb,
+                       "" if okb else f"admits {sorted(tys)}: len() of such an object is not its size in bytes, so the length check does not bound the array that frombuffer creates",
+                       am.lineno)
+                byte_elems = any("bit_length <= 8" in c and pol for c, pol in p.conds)
+                ctx.ob(R, t.rel, f"{label}: the buffer fast path exists only for elements of at most 8 bits", byte_elems, "", am.lineno)
         ok = _raises_value_error_on_other_branch(tree)
         ctx.ob(R, t.rel, f"{label}: the remaining path raises ValueError", ok, "", am.lineno)
+        if ".encode()" in p.text:
+            ok = any(c.endswith(".string_like") or c.endswith(".string_like)") for c, pol in p.conds if pol)
+            ctx.ob(R, t.rel, f"{label}: a str is accepted (implicit encode) only for string_like arrays", ok, "", am.lineno)
+    ok = n_fixed >= 1 and n_var >= 1
+    ctx.ob(R, t.rel, "assign_array: == for fixed-length, <= for variable-length arrays (both kinds have paths)", ok, f"fixed paths {n_fixed}, variable paths {n_var}", am.lineno)
 
     # __init__ routes through setters
     init_if = None
@@ -399,8 +419,13 @@ def rule_model(ctx, ts, px):
             d += 1
         return d
 
-    calls = [c for c in ast.walk(f.node) if isinstance(c, ast.Call) and ast.unparse(c.func) in ("base64.b85encode", "gzip.compress", "pickle.dumps")]
-    enc = [ast.unparse(c.func) for c in sorted(calls, key=depth)]
+    # the encoder chain, outermost first, with hoisted intermediate locals put back (pickled = pickle.dumps(x); gzip.compress(pickled) ...)
+    enc = []
+    outer = [c for c in ast.walk(f.node) if isinstance(c, ast.Call) and ast.unparse(c.func) == "base64.b85encode"]
+    cur = pyfront.subst_locals(f.node, outer[0]) if outer else None
+    while isinstance(cur, ast.Call) and ast.unparse(cur.func) in ("base64.b85encode", "gzip.compress", "pickle.dumps"):
+        enc.append(ast.unparse(cur.func))
+        cur = pyfront.subst_locals(f.node, cur.args[0]) if cur.args else None
     pairs = {"pickle.loads": "pickle.dumps", "gzip.decompress": "gzip.compress", "base64.b85decode": "base64.b85encode"}
     want = [pairs.get(d) for d in dec]
     ok = enc == want[::-1] and len(dec) == 3
@@ -487,6 +512,19 @@ def rule_builtin(ctx, ts):
         after = up.body[up.body.index(lp) + 1:]
         ok = any(isinstance(x, ast.If) and ast.unparse(x.test) == src and any(isinstance(r, ast.Raise) and "ValueError" in ast.unparse(r) for r in ast.walk(x)) for x in after)
         ctx.ob(R, t.rel, "update_from_builtin: leftover source keys raise ValueError", ok, "", up.lineno)
+        # to_builtin: a str is produced for an array exactly under the predicate that makes the generated setter accept a str
+        model = tb.args.args[1].arg if len(tb.args.args) > 1 else "model"
+        n_str = 0
+        for st, gd in pyfront.walk_guarded(tb.body, ()):
+            if isinstance(st, ast.Return) and st.value is not None and ".decode()" in ast.unparse(st.value):
+                n_str += 1
+                terms = pyfront.guard_terms([(pyfront.subst_locals(tb, t_), p_) for t_, p_ in gd])
+                ok = any(pol and re.fullmatch(rf"{model}\.string_like", e) is not None for e, pol in terms) or \
+                    any(pol and e.startswith(f"{model}.string_like and ") for e, pol in terms)
+                ctx.ob(R, t.rel, "_to_builtin_impl: an array becomes a str only where the model is string_like (the predicate under which the setter takes a str)", ok,
+                       "" if ok else f"str returned under {[(e[:70], pol) for e, pol in terms]}: for an array that is not string_like (e.g. a fixed-length uint8 array) the "
+                       "result cannot be applied back with update_from_builtin", st.lineno)
+        ctx.ob(R, t.rel, "_to_builtin_impl: the str special case exists (anchor)", n_str >= 1, "", tb.lineno)
         # to_builtin: composite branch
         comps = [c for c in ast.walk(tb) if isinstance(c, ast.DictComp)]
         ok = len(comps) == 1 and len(comps[0].generators) == 1 and ast.unparse(comps[0].generators[0].iter).endswith(".fields_except_padding")
